@@ -1,6 +1,6 @@
 # replay of a solver counterexample against the real library (exit 1 = reproduces)
 import sys, warnings
-sys.path.insert(0, '/repo')
+sys.path.insert(0, '/tmp/sr/C19-m6')
 warnings.simplefilter('ignore')
 import numpy as np
 from svgpathtools import *
@@ -15,7 +15,7 @@ def NOT_REPRODUCED(msg=''):
 
 from svgpathtools.polytools import rational_limit
 from fractions import Fraction as F
-fc = [2.0, 0.0, 0.0]; gc = [2.3283064365386963e-10, 0.0, 3.725290298461914e-09]; t0 = 0.0; m = 2
+fc = [-1.0, 0.0, 1.0]; gc = [-1.0, 0.0, -1.0]; t0 = 0.0; m = 2
 f1 = np.poly1d(fc); g1 = np.poly1d(gc); lin = np.poly1d([1, -t0])
 f, g = f1, g1
 for _ in range(m):
